@@ -109,10 +109,6 @@ func entryMsg(cq CQ, ar AR, id int) *dns.Msg {
 // inject loads abstract entries (times relative to abstract now) into instance i at wall time base.
 func (w *world) inject(i int, ents []AEntry) error {
 	if w.base.IsZero() {
-		// start of a wall second + a few ms, so that the whole real phase stays inside one second
-		for time.Now().Nanosecond() > 300e6 {
-			time.Sleep(20 * time.Millisecond)
-		}
 		w.base = time.Now()
 	}
 	baseU := w.base.Unix()
